@@ -51,3 +51,39 @@ package decoder
 //@   ensures [C20] implies(signature != old(signature), len(signature.Parameters) == len(d.pathCtx.Functions[callOf(node).Name].Params) + ite(d.pathCtx.Functions[callOf(node).Name].VarParam != nil, 1, 0))
 //@   ensures [C20] implies(isCall(node) && node.Range().ContainsPos(pos) && haskey(d.pathCtx.Functions, callOf(node).Name) && len(d.pathCtx.Functions[callOf(node).Name].Params) == 0 && d.pathCtx.Functions[callOf(node).Name].VarParam == nil, signature != old(signature))
 //@   loop 2 invariant [C20] len(parameters) == rangeindex + 1 && fresh(parameters)
+
+// ---- C12: hover. Every Expression is asked for hover only at a position inside its own expression,
+// ---- and answers nothing or non-empty content with a range that contains the position.
+//@ contract decoder.newExpression (pathContext, expr, cons) (result)
+//@   ensures [C12] result != nil
+//@   ensures [C12] typeis(result, "decoder.unknownExpression") || result.expr == expr
+//@ iface decoder.Expression.HoverAtPos (ctx, pos) (result)
+//@   requires [C12] typeis(self, "decoder.unknownExpression") || self.expr.Range().ContainsPos(pos)
+//@   ensures [C12] result == nil || (result.Range.ContainsPos(pos) && len(result.Content.Value) > 0)
+//@ contract (decoder.Any).hoverNonComplexExprAtPos (a, ctx, pos) (result)
+//@   requires [C12] a.expr.Range().ContainsPos(pos)
+//@   ensures [C12] result == nil || (result.Range.ContainsPos(pos) && len(result.Content.Value) > 0)
+//@ contract (decoder.Any).hoverOperatorExprAtPos (a, ctx, pos) (result, ok)
+//@   requires [C12] a.expr.Range().ContainsPos(pos)
+//@   ensures [C12] result == nil || (result.Range.ContainsPos(pos) && len(result.Content.Value) > 0)
+//@ contract (decoder.Any).hoverTemplateExprAtPos (a, ctx, pos) (result, ok)
+//@   requires [C12] a.expr.Range().ContainsPos(pos)
+//@   ensures [C12] result == nil || (result.Range.ContainsPos(pos) && len(result.Content.Value) > 0)
+//@ contract (decoder.Any).hoverConditionalExprAtPos (a, ctx, pos) (result, ok)
+//@   requires [C12] a.expr.Range().ContainsPos(pos)
+//@   ensures [C12] result == nil || (result.Range.ContainsPos(pos) && len(result.Content.Value) > 0)
+//@ contract (decoder.Any).hoverForExprAtPos (a, ctx, pos) (result, ok)
+//@   requires [C12] a.expr.Range().ContainsPos(pos)
+//@   ensures [C12] result == nil || (result.Range.ContainsPos(pos) && len(result.Content.Value) > 0)
+//@ contract (decoder.Any).hoverIndexExprAtPos (a, ctx, pos) (result, ok)
+//@   requires [C12] a.expr.Range().ContainsPos(pos)
+//@   ensures [C12] result == nil || (result.Range.ContainsPos(pos) && len(result.Content.Value) > 0)
+//@ contract (decoder.functionExpr).HoverAtPos (fe, ctx, pos) (result)
+//@   requires [C12] fe.expr.Range().ContainsPos(pos)
+//@   ensures [C12] result == nil || (result.Range.ContainsPos(pos) && len(result.Content.Value) > 0)
+//@ contract (decoder.TypeDeclaration).objectHoverAtPos (td, ctx, funcExpr, pos) (result)
+//@   requires [C12] funcExpr != nil && funcExpr.Range().ContainsPos(pos)
+//@   ensures [C12] result == nil || (result.Range.ContainsPos(pos) && len(result.Content.Value) > 0)
+//@ contract (decoder.TypeDeclaration).tupleHoverAtPos (td, ctx, funcExpr, pos) (result)
+//@   requires [C12] funcExpr != nil && funcExpr.Range().ContainsPos(pos)
+//@   ensures [C12] result == nil || (result.Range.ContainsPos(pos) && len(result.Content.Value) > 0)
